@@ -163,3 +163,8 @@ reg('C04', 'replace_cache', 'rule_sibling_splice')
 reg('C07', 'caches', 'rule_memo')                    # a memoised view has one meaning: all initialisers of a cell agree
 reg('C12', 'bounds', 'rule_decoder_width')
 reg('C17', 'bounds', 'rule_position_add', ('dev',))
+# ---- round 7
+reg('C09', 'streams', 'rule_combine_when_inner')
+reg('C10', 'streams', 'rule_collector_sibling')
+reg('C14', 'streams', 'rule_collector_sibling')   # repeating map() on an unchanged tree gives the same sources / sourcesContent
+reg('C06', 'streams', 'rule_collector_sibling')
